@@ -201,6 +201,28 @@ PENDING_REASON = 'not claimed yet: the static rule set for this property (DESIGN
 
 ALL = ['C%02d' % i for i in range(1, 21)]
 
+# rule bundles of checks/shared.py imported by a property (mechanisms it rests on; see DESIGN.md 13.11)
+BUNDLES = {
+    'version_word': 'the version-word protocol (C17: R-BODY, R-CASL, R-MX, R-STB)',
+    'permutation_word': 'single-word publication and one-snapshot consumption of the leaf ordering (C19: R-PUB1, R-RD1)',
+    'key_order': 'one key order, identical slicing, full-width lengths (C18: R-CMP, R-SLICE, R-NARROW)',
+    'descent': 'hand-over-hand validation of the descent (C01: R-DESC)',
+    'writers_dirty': 'dirty bit before structural stores (C01: R-DBM)',
+    'sessions': 'exclusive session slots (C14: R-CAS, R-TOK)',
+    'value_words': 'immutable values swapped with one store (C15: R-IMM, R-ONE)',
+    'reclamation': 'who may free, unlink implies retire (C07: R-WMF, R-RET)',
+}
+SHARED = {
+    'C01': ['version_word', 'permutation_word', 'key_order', 'value_words'],
+    'C03': ['key_order'],
+    'C04': ['version_word', 'permutation_word', 'descent', 'writers_dirty'],
+    'C05': ['version_word', 'descent', 'writers_dirty'],
+    'C06': ['version_word', 'descent'],
+    'C07': ['sessions'],
+    'C10': ['version_word', 'permutation_word', 'descent', 'key_order'],
+    'C11': ['reclamation'],
+}
+
 
 def main():
     checks = []
@@ -210,6 +232,8 @@ def main():
         if not os.path.exists(os.path.join(HERE, 'checks', p + '.py')):
             continue
         tech, text, note, ref = CHECKS[p]
+        if p in SHARED:
+            text += ' Also decided here, because this property rests on them: ' + '; '.join(BUNDLES[b] for b in SHARED[p]) + '.'
         checks.append({
             'property_id': p,
             'quick_cmd': 'python3 run.py %s --tier quick' % p,
